@@ -691,9 +691,99 @@ func valueInstr(v ssa.Value) ssa.Instruction {
 	return firstInstr(v.Parent())
 }
 
+// parentDerefObligations: a node's parent is nil exactly for roots.  Every dereference of `x.parent` (a field access or a
+// method call on it) needs evidence that x is not a root: a dominating `x.parent != nil`, a dominating `!x.isRoot()`
+// (non-roots are linked to their parent when they are attached, PAIR-2), or — when x is a parameter — such evidence at
+// every call site.
+func parentDerefObligations(p *Prog, l *obs, fns []*ssa.Function) {
+	isParentLoad := func(v ssa.Value) (*ssa.FieldAddr, bool) {
+		ld, ok := isLoad(stripConv(v))
+		if !ok {
+			return nil, false
+		}
+		fa, ok := ld.(*ssa.FieldAddr)
+		if !ok {
+			return nil, false
+		}
+		tn, f, _ := fieldOf(fa)
+		return fa, tn == "Node" && f == "parent"
+	}
+	var evidence func(x ssa.Value, at ssa.Instruction, depth int) bool
+	evidence = func(x ssa.Value, at ssa.Instruction, depth int) bool {
+		for _, g := range guardsOf(at.Block()) {
+			// x.parent != nil on (another load of) the same node
+			if tv, nonNil, ok := nilTest(g.Cond, g.Pol); ok && nonNil {
+				if fa, isP := isParentLoad(tv); isP && (fa.X == x || sameVar(fa.X, x)) {
+					return true
+				}
+			}
+			// !x.isRoot()
+			c, pol := flattenCond(g.Cond, g.Pol)
+			if call, ok := c.(*ssa.Call); ok && !pol && call.Common().StaticCallee() != nil && fname(call.Common().StaticCallee()) == "isRoot" && len(call.Common().Args) == 1 {
+				if call.Common().Args[0] == x || sameVar(call.Common().Args[0], x) {
+					return true
+				}
+				// the loop `for ; !a.isRoot(); a = a.parent`: x is the phi a
+				if ph, isPhi := x.(*ssa.Phi); isPhi && call.Common().Args[0] == ssa.Value(ph) {
+					return true
+				}
+			}
+		}
+		if prm, ok := x.(*ssa.Parameter); ok && depth < 2 {
+			fn := prm.Parent()
+			i := paramIndex(fn, prm)
+			callers := p.Callers(fn)
+			if len(callers) == 0 || i < 0 {
+				return false
+			}
+			for _, ci := range callers {
+				args := callArgs(ci.Common())
+				if i >= len(args) || !evidence(args[i], ci.(ssa.Instruction), depth+1) {
+					return false
+				}
+			}
+			return true
+		}
+		return false
+	}
+	n := 0
+	for _, fn := range fns {
+		fn := fn
+		num := numbered{}
+		allInstrs(fn, func(in ssa.Instruction) {
+			var pv ssa.Value
+			switch x := in.(type) {
+			case *ssa.FieldAddr:
+				pv = x.X
+			case ssa.CallInstruction:
+				if f := x.Common().StaticCallee(); f != nil && p.InModule(f) && recvTypeName(f) == "Node" && len(x.Common().Args) > 0 {
+					pv = x.Common().Args[0]
+				}
+			}
+			if pv == nil {
+				return
+			}
+			fa, isP := isParentLoad(pv)
+			if !isP {
+				return
+			}
+			n++
+			construct := num.name("dereference of " + describeValue(fa.X) + ".parent")
+			base := fa.X
+			if guardedNonNil(pv, in) || evidence(base, in, 0) {
+				l.ok(p.FuncID(fn), construct, p.InstrPos(in), "the node is known not to be a root here (parent != nil / !isRoot() in this function or at every call site)", true, "parent-deref")
+			} else {
+				l.bad(p.FuncID(fn), construct, p.InstrPos(in), "nothing establishes that the node has a parent here (no dominating `parent != nil` or `!isRoot()` test, in this function or at all of its call sites): for a root the parent is nil and this dereference panics", "parent-deref")
+			}
+		})
+	}
+	_ = n
+}
+
 func ruleNIL1(w *World) []Ob {
 	l := &obs{rule: "NIL-1", cfg: "D"}
 	d := w.D()
+	parentDerefObligations(d, l, libFuncs(d))
 	nilObligations(w, d, libFuncs(d), l)
 	pw := w.W()
 	l.cfg = "W"
